@@ -5,6 +5,8 @@
 import BufrModel.Msg.Sections
 import BufrModel.Spec.Frame
 import BufrModel.Gen.PyConstants
+import BufrModel.Gen.PyDecoder
+import BufrModel.Lemmas.SectionsSrc
 namespace Bufr
 open PyGen.constants
 
@@ -18,3 +20,84 @@ theorem C04_src_const_stop_signature : stopSig = MESSAGE_STOP_SIGNATURE := by de
 theorem C04_src_const_nbits_per_byte : NBITS_PER_BYTE = 8 := by decide
 
 end Bufr
+
+/-! ### the end of `Decoder.process_section`, translated from the source -/
+namespace Bufr
+open PyGen.decoder PyGen.decoder.process_section_finish
+
+/-- **The end of `Decoder.process_section` is the model's `finishSection`** — the part from
+    `if 'section_length' in section:` to the `return` (decoder.py:150-160), regenerated into `Gen/PyDecoder.lean
+    process_section_finish` on every check; the parameter loop before it is NOT translated (this is a fragment).
+    For every layout `s`, every section state `st` reached by the parameter loop, every bit reader and section object whose
+    callbacks correspond to the model (`ReaderSpec`, `SectionSpec`; `hpos`: the reader stands `st.used` bits after the start
+    of the section):
+      * when `finishSection` succeeds the translated code returns normally, its return value is the section's `nbits`
+        (the declared length in bits when padding was skipped, else the bits read), the reader is left with exactly the
+        remaining bits `rest` at position `start + nbits`, and the section record is the accumulated one;
+      * when `finishSection` fails — the overrun refusal `.lib`, or the reader running out of bits while skipping the
+        padding — the translated code raises an exception of that class. -/
+theorem C04_src_finish_section_eq {α : Type} (env : Env) (errOf : Py.Exc → Err) (bits : Py.Obj → Bits) (pos : Py.Obj → Nat)
+    (hlib : errOf (.raised "PyBufrKitError") = .lib) (hr : ReaderSpec env errOf bits pos)
+    (br : Py.Obj) (sec : Section) (s : SectionLayout) (st : DecSt α) (start : Nat)
+    (hs : SectionSpec env sec s st.acc start) (hpos : pos br = start + st.used) :
+    FinishOk env errOf bits pos s st start (finishSection s st (bits br)) (process_section_finish env br sec) :=
+  finish_section_eq env errOf bits pos hlib hr br sec s st start hs hpos
+
+/-- … hence the tail of the model's `decSection`: after the parameter loop (`decParams`) has produced `st` and left the
+    bits `bits br`, the translated code completes the section exactly as `decSection` does -/
+theorem C04_src_section_after_params {α : Type} (env : Env) (errOf : Py.Exc → Err) (bits : Py.Obj → Bits) (pos : Py.Obj → Nat)
+    (hlib : errOf (.raised "PyBufrKitError") = .lib) (hr : ReaderSpec env errOf bits pos)
+    (dc : DataCoder α) (s : SectionLayout) (reg : Registry) (start : Nat) (bs : Bits)
+    (br : Py.Obj) (sec : Section) (st : DecSt α)
+    (hpar : decParams dc start s.params 0 { reg := reg, acc := [], used := 0, data := none } bs = .ok (st, bits br))
+    (hs : SectionSpec env sec s st.acc start) (hpos : pos br = start + st.used) :
+    FinishOk env errOf bits pos s st start (decSection dc s reg start bs) (process_section_finish env br sec) := by
+  have h : decSection dc s reg start bs = finishSection s st (bits br) := by
+    simp only [decSection, R.bind, hpar]
+  rw [h]
+  exact finish_section_eq env errOf bits pos hlib hr br sec s st start hs hpos
+
+/-- C12 (a damaged section length is a LIBRARY error): when more bits were read than the section declares, the translated
+    code raises `PyBufrKitError` itself -/
+theorem C04_src_overrun_is_library_error (env : Env) (errOf : Py.Exc → Err) (bits : Py.Obj → Bits) (pos : Py.Obj → Nat)
+    (hr : ReaderSpec env errOf bits pos) (br : Py.Obj) (sec : Section) (start used d : Nat) (i : Int)
+    (hc : env.section_contains sec "section_length".toList = .ok true)
+    (hst : env.section_get_metadata sec BITPOS_START = .ok (start : Int))
+    (hix : env.section_get_metadata sec "index".toList = .ok i)
+    (hv : sec.section_length_value = (d : Int)) (hpos : pos br = start + used) (hover : d * 8 < used) :
+    (process_section_finish env br sec).2 = .error (.raised "PyBufrKitError") := by
+  have hgp := hr.get_pos
+  have hix' : env.section_get_metadata sec ['i', 'n', 'd', 'e', 'x'] = .ok i := hix
+  have hc' : env.section_contains sec ['s', 'e', 'c', 't', 'i', 'o', 'n', '_', 'l', 'e', 'n', 'g', 't', 'h'] = .ok true := hc
+  have h8 : NBITS_PER_BYTE = 8 := rfl
+  have hnr : ((pos br : Int) - (start : Int)) = (used : Int) := by rw [hpos]; omega
+  have hng : ¬ ((0 : Int) < (d : Int) * 8 - (used : Int)) := by omega
+  have hlt : (d : Int) * 8 - (used : Int) < 0 := by omega
+  simp only [process_section_finish, Py.Flow.bind, Py.Flow.eval, Py.Flow.finish, hc', hgp, hst, hnr, hv, h8, hng, hlt, hix',
+    bind, Except.bind, pure, Except.pure, if_true, if_false, decide_true, decide_false, Int.ofNat_eq_natCast,
+    Int.natCast_zero, Bool.false_eq_true]
+
+/-- the hypotheses are satisfiable: a reader over a concrete bit list (state = number of bits consumed) -/
+example : ∃ (env : Env) (errOf : Py.Exc → Err) (bits : Py.Obj → Bits) (pos : Py.Obj → Nat),
+    errOf (.raised "PyBufrKitError") = .lib ∧ ReaderSpec env errOf bits pos :=
+  ⟨{ section_contains := fun _ _ => .ok false, bit_reader_get_pos := fun br => .ok (br.tag : Int),
+     section_get_metadata := fun _ _ => .ok 0,
+     bit_reader_read_bin := fun br n => if n = 0 then .ok ({}, br) else .error .indexError },
+   fun x => if x = .raised "PyBufrKitError" then .lib else .bitRead, fun _ => [], fun br => br.tag,
+   by decide,
+   ⟨fun _ => rfl,
+    fun br n v rest h => by
+      cases n with
+      | zero => simp [readBin, readBits] at h; exact ⟨{}, br, rfl, h.2.symm ▸ rfl, rfl⟩
+      | succ n => simp [readBin, readBits] at h,
+    fun br n e h => by
+      cases n with
+      | zero => simp [readBin, readBits] at h
+      | succ n =>
+        simp [readBin, readBits] at h
+        refine ⟨.indexError, ?_, ?_⟩
+        · simp; omega
+        · rw [← h]; decide⟩⟩
+
+end Bufr
+
